@@ -301,7 +301,7 @@ func main() {
 		lib.ReadReplayCase(a.Replay, &c)
 		cases = []Case{c}
 	} else {
-		n := a.Pick(128, 1024)
+		n := a.Pick(256, 1536)
 		// every subset of the pool turns up as participant 0 once per 256 cases, in seed-dependent order
 		off, mul := rng.Intn(256), 2*rng.Intn(128)+1
 		for i := 0; i < n; i++ {
